@@ -133,3 +133,10 @@ VARIANTS += [
       "            .set_encoding(ImprovedBottomLeftEncoding1(instance))",
       "fire", "D12.8", "seed C12-base-setup-ignores-encoding"),
 ]
+
+VARIANTS += [
+    V("completion-hook-describes-empty-record",
+      "moptipyapps/dynamic_control/experiment_raw.py",
+      "    process.get_copy_of_best_x(result)\n", "", "fire", "D12.9",
+      "seed C12-completion-hook-describes-empty-record"),
+]
